@@ -5,18 +5,29 @@ ENTRY = dict(
         title="Reset-removal optimisations never change measurement statistics",
         prop_file="Properties/C12.v",
         corr_files=["Corr/C12Corr.v"],
-        theorems=["c12_consolidate_only_resets", "c12_zero_only_resets", "c12_final_only_resets", "c12_pipeline_only_resets",
+        theorems=[
+                  # (1) only resets are deleted
+                  "c12_consolidate_only_resets", "c12_zero_only_resets", "c12_final_only_resets", "c12_pipeline_only_resets",
                   "c12_dag_rfr_only_resets", "c12_dag_rfr_fix_only_resets", "c12_dag_consolidate_only_resets",
                   "c12_del_resets_meaning", "c12_del_resets_clbit_wire",
+                  # (2) Herbrand semantics (statistics via M1)
                   "c12_consolidate_semantics", "c12_zero_semantics", "c12_dag_consolidate_semantics",
                   "c12_final_semantics", "c12_final_dropped_iff", "c12_final_dropped_zero", "c12_final_complete",
-                  "c12_pipeline_semantics",
+                  "c12_final_reappend", "c12_pipeline_semantics", "c12_pipeline_dropped",
                   "c12_dag_rfr_semantics", "c12_dag_rfr_dropped_iff", "c12_dag_rfr_fix_semantics",
+                  # (3) DAG passes = list passes (no M1)
                   "c12_dag_rfr_fix_is_fixed_point", "c12_dag_equiv_final", "c12_dag_equiv_consolidate",
                   "c12_dag_equiv_consolidate_rest",
-                  "c12_sim_consolidate", "c12_sim_consolidate_any", "c12_sim_zero", "c12_sim_born_law",
-                  "c12_site_only_resets", "c12_site_semantics_observed", "c12_site_semantics_placeholder",
-                  "c12_facts_pipeline", "c12_facts_scans", "c12_facts_dag", "c12_facts_sites"],
+                  # (4) call sites
+                  "c12_site_only_resets", "c12_site_semantics_placeholder",
+                  # (5) concrete / abstract-law branch semantics (no M1)
+                  "c12_sim_consolidate", "c12_sim_consolidate_any", "c12_sim_zero",
+                  "c12_sim_laws_consolidate", "c12_sim_laws_zero", "c12_sim_qsim_laws", "c12_sim_laws_final",
+                  # definitional restatements / corollaries (no content of their own)
+                  "c12_site_observed_def", "c12_sim_born_law_cor",
+                  # fact obligations (constants regenerated from the source; not theorems about behaviour)
+                  "c12_facts_pipeline_obligation", "c12_facts_scans_obligation", "c12_facts_dag_obligation",
+                  "c12_facts_sites_obligation"],
         allowed_axioms=[],
         facts=["reset_pipeline_order", "reset_scan_shapes", "reset_dag_calls", "reset_call_sites"],
         harness="c12",
@@ -29,29 +40,42 @@ ENTRY = dict(
                    "in |0>; the DAG fixed point equals the list pass, ConsolidateResets equals _consolidate_resets on every wire; the call sites "
                    "inside generate_cutting_experiments (pipeline, and final-reset removal before the placeholder measurement of an identity "
                    "sub-observable) leave every classical bit unchanged except the placeholder's own, ignored, bit. Closed under "
-                   "the global context. The models are run against the implementation on every program of length <= 4 (thorough: <= 5) over a "
-                   "10-letter alphabet (plus its symmetric 13-letter completion one length shorter), random circuits in three call forms (in place, "
+                   "the global context. The models are run against the implementation on every program of length <= 4 (thorough: <= 5) over the "
+                   "10-letter alphabet and every program of length <= 3 (thorough: <= 4) over its symmetric 13-letter completion, random circuits in three call forms (in place, "
                    "inplace=False, applied twice), and end to end on the subexperiments of generate_cutting_experiments for small wire-cut "
                    "problems; every case is also simulated by an independent density-matrix oracle.",
-        level_note=STD_NOTE + "For _consolidate_resets and _remove_resets_in_zero_state M1 is NOT needed any more: c12_sim_* prove, for every "
-                   "circuit of gates from the QSim set (x y z h s sdg sx sxdg cx cz swap ccx), measurements, resets and barriers on any number of "
-                   "qubits, that the list of positive-weight (classical register, exact state vector) branches is unchanged in the concrete "
-                   "state-vector semantics Model/ResetSim.v over Common/QSim.v (also valid for any other semantics satisfying the ten algebraic "
-                   "laws of Proofs/ResetSimP.v); that semantics is itself compared with the numpy simulator on ~1200 cases per run (chk_sim). "
-                   "M1 is still what carries the final-reset, pipeline, call-site and DAG-pass theorems to statistics. "
-                   "No axioms. 'Same statistics' is proved as equality of Herbrand wire-history terms (Common/Herbrand.v); that equal "
-                   "terms give equal joint laws/conditional states under density-matrix semantics is modelling assumption M1, cross-checked "
-                   "numerically on every generated case by the harness simulator (oracle contract), not proved.",
+        level_note=STD_NOTE + "Counting: 35 theorems with content, 2 definitional restatements (c12_site_observed_def = c12_pipeline_semantics "
+                   "unfolded; c12_sim_born_law_cor = a rewrite of c12_sim_consolidate/_zero) and 4 fact obligations (c12_facts_*_obligation: "
+                   "extracted constants equal what the model assumes - call sites/order, scan direction, DAG methods; they pin neither flags "
+                   "nor early exits). Hypotheses: wf (input precondition, enforced by Qiskit) everywhere; simple + interpreted (input "
+                   "precondition = the property's quantifier: only gates/measurements/resets/barriers, every gate id mapped to a QSim gate of "
+                   "the right arity) in c12_sim_*; reset_laws / commute_laws (physics of the interpretation) in c12_sim_laws_*. "
+                   "WITHOUT M1: c12_sim_consolidate/_any/_zero - for _consolidate_resets and _remove_resets_in_zero_state the list of positive-"
+                   "weight (classical register, exact state vector) branches is unchanged in the concrete state-vector semantics "
+                   "Model/ResetSim.v over Common/QSim.v (gates x y z h s sdg sx sxdg cx cz swap ccx, any number of qubits); "
+                   "c12_sim_laws_consolidate/_zero - the same in any branch semantics satisfying the ten laws reset_laws (covers rotation "
+                   "gates; c12_sim_qsim_laws discharges them for QSim); c12_sim_laws_final - _remove_final_resets in any branch semantics "
+                   "satisfying five commutation laws: up to branch order, c = (pass output) followed by the removed resets; these five laws "
+                   "are NOT discharged for QSim (its flip re-normalises rationals, so they hold only up to Qeq / under a validity invariant). "
+                   "Hence for the exact simulator M1 is still what carries c12_final_*, c12_pipeline_*, c12_site_*, c12_dag_rfr*, "
+                   "c12_dag_consolidate_semantics to statistics; ConsolidateResets has no concrete theorem (it needs the same commutation "
+                   "laws plus branch permutation). The concrete semantics is compared with the numpy simulator on ~1200 cases per run "
+                   "(chk_sim). No axioms. 'Same statistics' in group (2) is equality of Herbrand wire-history terms (Common/Herbrand.v); "
+                   "that equal terms give equal joint laws/conditional states is modelling assumption M1, cross-checked numerically on every "
+                   "generated case by the harness simulator (oracle contract), not proved.",
         assumptions=[
             "Model/ResetPasses.v is a hand-written model of the five passes; tied to /repo by the C12 correspondence (exact instruction lists "
             "for the list passes; per-wire sequences for the transpiler passes run through PassManager, whose circuit->DAG->circuit round trip "
             "may permute independent instructions) and by the regenerated facts (pipeline order, scan direction/early exits, DAG calls used)",
             "M1: a compositional (density-matrix) semantics factors through the Herbrand denotation; initial and reset wires are the same term Zero "
-            "- needed by c12_final_*, c12_pipeline_*, c12_site_*, c12_dag_* only; c12_sim_consolidate / c12_sim_zero / c12_sim_born_law are "
-            "proved directly in the concrete state-vector semantics and do not use it",
+            "- needed by c12_final_*, c12_pipeline_*, c12_site_*, c12_dag_*_semantics only; c12_sim_* are proved in the concrete / abstract-law "
+            "branch semantics and do not use it",
             "the concrete semantics (Model/ResetSim.v: measure/reset = two unnormalised projected branches, Born weight = squared norm; gates "
             "from Common/QSim.v) is hand-written; tied to the harness's numpy simulator by chk_sim; gates outside the QSim set (rotations) "
-            "are covered only under the abstract laws of Proofs/ResetSimP.v, not by an instance",
+            "are covered only under the abstract laws (c12_sim_laws_*), not by an instance; on instructions outside [simple] (Move, QPD "
+            "placeholders, CutWire) bstep is the identity, which is not their meaning - the c12_sim_* statements therefore require simple c",
+            "hypotheses reset_laws (10) and commute_laws (5) of c12_sim_laws_*: algebraic laws of the interpretation; reset_laws proved for QSim, "
+            "commute_laws only shown consistent (one-point model)",
             "well-formedness hypothesis of the semantic theorems: qubit/clbit indices in range, Reset on exactly one qubit and no clbit, Measure one "
             "qubit and one clbit; conditional (c_if / control-flow) resets are outside the property's quantifier and outside the model",
             "OBSERVATION (outside the quantifier 'gates, mid-circuit measurements, resets and barriers'; not modelled, not checked, recorded in the "
